@@ -94,7 +94,7 @@ func runBounded(prop, tier string, seed int) []BoundedResult {
 			}
 			if !ok {
 				br.Failed++
-				dir := filepath.Join(verifDir, "replays", prop, "bounded_"+br.Name+"_"+ts.name)
+				dir := filepath.Join(outDir, "replays", prop, "bounded_"+br.Name+"_"+ts.name)
 				os.MkdirAll(dir, 0o755)
 				os.WriteFile(filepath.Join(dir, "output.txt"), []byte(outp), 0o644)
 				os.WriteFile(filepath.Join(dir, "REPLAY.md"), []byte(fmt.Sprintf("# Bounded check failed\n\ncheck: %s\ntier: %s\npackage: %s\n\nThe failing input is printed in output.txt. Re-run: `./check %s thorough`\n", br.Name, ts.name, pkg, prop)), 0o644)
@@ -110,7 +110,7 @@ func runBounded(prop, tier string, seed int) []BoundedResult {
 
 // goTestOverlay injects one test file into a package of /repo (without writing to /repo) and runs it.
 func goTestOverlay(pkg, file, asName, run string, ts *tierSpec, env map[string]string, timeoutS int) (bool, string) {
-	work := filepath.Join(verifDir, "work", "overlay")
+	work := filepath.Join(outDir, "work", "overlay")
 	os.MkdirAll(work, 0o755)
 	rel := strings.TrimPrefix(strings.TrimPrefix(pkg, modPath), "/")
 	target := filepath.Join(repoDir, rel, asName)
